@@ -43,35 +43,40 @@ def internalNamesBystanderRoom (st : St) (s : Sess) (i : Internal) : Bool :=
   (match i.dialout with | some d => decide (d.room = .by) | none => false) ||
   (i.incall.isSome && s.room = .by)
 
-/-- Kinds of messages the statement lets this frame cause at the bystander. -/
+/-- Kinds of messages the content of a valid message of session `s` addresses to the bystander. -/
+def addrSession (st : St) (s : Sess) (m : ClientMessage) : List String :=
+  if m.mtype = "message" then
+    match m.message with
+    | some mm => if namesBystander s mm.recipient then ["message"] else []
+    | none => []
+  else if m.mtype = "control" then
+    match m.control with
+    | some mm => if namesBystander s mm.recipient then ["control"] else []
+    | none => []
+  else if m.mtype = "room" then
+    match m.room with
+    -- a room session id sent along names whoever holds it: that session is
+    -- disconnected, which its room sees
+    | some r => if s.room = .by || r.roomId = .by || !r.sidEmpty then roomEvents else []
+    | none => []
+  else if m.mtype = "bye" then
+    (if s.room = .by || st.world.virt.any (fun v => v.2 = .by) then roomEvents else [])
+  else if m.mtype = "transient" then
+    (if s.room = .by then ["transient.set", "transient.remove"] else [])
+  else if m.mtype = "internal" then
+    match m.internal with
+    | some i => if s.internal && internalNamesBystanderRoom st s i then internalEvents else []
+    | none => []
+  else []
+
+/-- Kinds of messages the statement lets this frame cause at the bystander:
+nothing for frames over the limit, undecodable or invalid messages and
+connections without session; for a valid message of an established session
+what its content addresses. -/
 def addressed (F : Facts) (st : St) (f : Frame) : List String :=
   if f.oversize F || f.invalid F then [] else
   match st.conn, f.dec with
-  | .session s, .ok m =>
-    if s.fed then [] else
-    if m.mtype = "message" then
-      match m.message with
-      | some mm => if namesBystander s mm.recipient then ["message"] else []
-      | none => []
-    else if m.mtype = "control" then
-      match m.control with
-      | some mm => if namesBystander s mm.recipient then ["control"] else []
-      | none => []
-    else if m.mtype = "room" then
-      match m.room with
-      -- a room session id sent along names whoever holds it: that session is
-      -- disconnected, which its room sees
-      | some r => if s.room = .by || r.roomId = .by || !r.sidEmpty then roomEvents else []
-      | none => []
-    else if m.mtype = "bye" then
-      (if s.room = .by || st.world.virt.any (fun v => v.2 = .by) then roomEvents else [])
-    else if m.mtype = "transient" then
-      (if s.room = .by then ["transient.set", "transient.remove"] else [])
-    else if m.mtype = "internal" then
-      match m.internal with
-      | some i => if s.internal && internalNamesBystanderRoom st s i then internalEvents else []
-      | none => []
-    else []
+  | .session s, .ok m => addrSession st s m
   | _, _ => []
 
 /-! ### Judge -/
